@@ -26,6 +26,10 @@ CLAIMED = {
          "static analysis: path-sensitive value-provenance abstract interpretation over go/ssa", "DESIGN.md §5 C10"),
  "C11": ("Sound static decision of the structural causes: per-item/per-attempt context observation, interruptible per-item wait, every unexecuted item's slot is an error at post, mutex released on every task path and Wait before post (no hang). Wall-clock promptness and which worker holds which item are not decided.",
          "static analysis: path-sensitive context-observation typestate + slot coverage over go/ssa", "DESIGN.md §5 C11"),
+ "C13": ("Sound static decision of a sufficient condition for linearizability and race freedom of the store: every access to the map happens inside exactly one critical section of the store's own mutex per operation (write-locked for mutations), balanced on all paths, no nested store calls under the lock, the internal map never escapes. Linearization points lie inside the section; Merge/Clear are single write sections.",
+         "static analysis: path-sensitive lockset / critical-section typestate over go/ssa", "DESIGN.md §5 C13"),
+ "C14": ("Sound static decision that each direct method's map-effect summary equals its map operation (Set/Get/Has/Delete/Len/Clear/Merge/Keys/GetAll), that the map field only ever holds maps made by the store itself, and that snapshots are containers made in the call and not retained; by induction over operation sequences the store equals the model map.",
+         "static analysis: per-method map-effect summaries compared with a specification table", "DESIGN.md §5 C14"),
  "C18": ("Sound static decision that every nil-error return of Run (single, batch, empty batch) carries a provably non-empty action.",
          "static analysis: path-sensitive return-predicate analysis over go/ssa", "DESIGN.md §5 C18"),
  "C20": ("Sound static decision of the structural cause of the timing statement: a wait event with the node's GetWait() duration lies exactly between a failed attempt and the next (unless wait<=0 is established), none before the first or after the last attempt, every wait selects on ctx.Done(), no time.Sleep. Elapsed time itself is the time package's contract.",
